@@ -146,14 +146,15 @@ func c03Expected(v interface{}, enc string, tags []string) map[string]interface{
 		case []interface{}:
 			root = &XElem{Local: rtag}
 			for _, e := range t {
-				if mm, ok := e.(map[string]interface{}); ok && len(mm) == 1 {
+				if mm, ok := e.(map[string]interface{}); ok && len(mm) == 1 && !c03OnlyAttrOrText(mm) {
+					// documented: a list member with a single entry is written under that entry's key
 					for k, x := range mm {
-						if strings.HasPrefix(k, "-") || k == "#text" {
-							return nil // the single key becomes the element name: not a valid XML name
-						}
 						root.Items = append(root.Items, jsonToItems(k, x)...)
 					}
 				} else {
+					// ... unless that entry is an attribute or the text of the member: then it is an element
+					// like any other member (until the third bug-hunt round such members were left out, because
+					// the encoder used "-a" / "#text" as the element name - malformed output with a nil error)
 					root.Items = append(root.Items, jsonToItems(etag, e)...)
 				}
 			}
@@ -163,6 +164,15 @@ func c03Expected(v interface{}, enc string, tags []string) map[string]interface{
 		}
 	}
 	return refDecode(root, defCfg())
+}
+
+func c03OnlyAttrOrText(m map[string]interface{}) bool {
+	for k := range m {
+		if !(strings.HasPrefix(k, "-") && len(k) > 1) && k != "#text" {
+			return false
+		}
+	}
+	return true
 }
 
 func c03Encode(v interface{}, enc string, tags []string) ([]byte, error) {
@@ -465,16 +475,17 @@ func c03HasTwoAttrs(t *T) bool {
 	return false
 }
 
-// c03UnsignedAttr: an attribute entry of an unsigned Go type. The encoders document the attribute value
-// types they take (string, bool, int, int32, int64, float32, float64, json.Number, []byte) and reject others
-// with an error: outside "JSON-shaped".
+// c03UnsignedAttr: an attribute entry of a Go type that no decoder of the library produces and the attribute
+// encoder refuses with an error (uint8): outside "JSON-shaped". uint64 is what the decoder itself produces for
+// large integers under CastValuesToInt and is inside (it was excluded, together with uint8, until the third
+// bug-hunt round - on the strength of the encoder's type switch, not of any documentation).
 func c03UnsignedAttr(v interface{}) bool {
 	switch t := v.(type) {
 	case map[string]interface{}:
 		for k, e := range t {
 			if strings.HasPrefix(k, "-") {
 				switch e.(type) {
-				case uint8, uint64:
+				case uint8:
 					return true
 				}
 			}
